@@ -8,7 +8,7 @@ import typing as t
 from .. import astq
 from ..cfg import CFG, Node
 from ..dataflow import Def, ReachingDefs, bound_in_enclosing_comp
-from ..loader import AnalysisError, FuncInfo, Module, Repo, dotted, norm
+from ..loader import FuncInfo, Module, Repo, dotted, norm
 
 
 # ---------------------------------------------------------------------
@@ -16,19 +16,29 @@ from ..loader import AnalysisError, FuncInfo, Module, Repo, dotted, norm
 
 
 class Unit:
-    def __init__(self, repo: Repo, owner: FuncInfo, node: ast.AST, label: str, untrusted: t.Iterable[str] = (), refusal: str = "none"):
+    def __init__(self, repo: Repo, owner: FuncInfo, node: ast.AST, label: str, untrusted: t.Iterable[str] = (), refusal: str = "none", enclosing: "Unit | None" = None):
         self.repo = repo
+        self.enclosing = enclosing  # the unit whose body defines this callable (its locals are our free variables)
         self.owner = owner  # FuncInfo used for locations / finding keys
         self.node = node
         self.label = label
         self.module: Module = owner.module
         a = node.args  # type: ignore[attr-defined]
         self.params = [x.arg for x in a.posonlyargs + a.args + a.kwonlyargs] + ([a.vararg.arg] if a.vararg else []) + ([a.kwarg.arg] if a.kwarg else [])
-        self.untrusted = set(untrusted)
-        self.refusal = refusal  # "raise" (NotFound) | "none" (return None / (None, None))
+        # kind of the value a caller binds to each parameter (trusted / safejoined / unsafe, see Prov); helper units
+        # get theirs from the arguments at their call sites
+        self.param_kind: dict[str, str] = {p: ("unsafe" if p in set(untrusted) else "trusted") for p in self.params}
+        self._free_untrusted = set(untrusted) - set(self.params)
+        self.null_params: set[str] = set()  # parameters a caller may bind to a possibly-None safe_join result
+        self.refusal = refusal  # "raise" (NotFound) | "none" (return None / (None, None)) | "either" (helpers)
+        self.helper = False  # analysed because a root unit calls it: its return value is judged at the call sites
         self.cfg = CFG(node)
         self.rd = ReachingDefs(self.cfg, self.params)
         self.local_imports = self.module.local_imports(owner.node)
+
+    @property
+    def untrusted(self) -> set[str]:
+        return {p for p, k in self.param_kind.items() if k == "unsafe"} | self._free_untrusted
 
     def resolve(self, e: ast.AST) -> str | None:
         d = dotted(e)
@@ -91,7 +101,7 @@ def nested_defs(fn: ast.AST) -> list[ast.FunctionDef]:
 class Atom(t.NamedTuple):
     node: Node  # CFG test node whose edge decides
     reject: str  # label of the rejecting edge of that node ("T"/"F")
-    kind: str  # eq | in | prefix | isabs | altsep
+    kind: str  # eq | in | prefix | seg0 (first "/"-separated segment is one of consts) | isabs | altsep
     consts: tuple[str, ...]
     var: ast.Name  # occurrence of the tested variable (evaluated in `node`)
     text: str
@@ -110,9 +120,9 @@ class Atom(t.NamedTuple):
         if what == "abs":  # every string that starts with "/"
             return self.kind == "isabs" or (self.kind == "prefix" and any("/".startswith(p) for p in self.consts))
         if what == "dotdot":  # the string ".."
-            return (self.kind in ("eq", "in") and ".." in self.consts) or (self.kind == "prefix" and any("..".startswith(p) for p in self.consts))
+            return (self.kind in ("eq", "in", "seg0") and ".." in self.consts) or (self.kind == "prefix" and any("..".startswith(p) for p in self.consts))
         if what == "dotdot/":  # every string that starts with "../"
-            return self.kind == "prefix" and any("../".startswith(p) for p in self.consts)
+            return (self.kind == "prefix" and any("../".startswith(p) for p in self.consts)) or (self.kind == "seg0" and ".." in self.consts)
         if what == "altsep":
             return self.kind == "altsep"
         raise KeyError(what)
@@ -126,13 +136,45 @@ def _str_consts(e: ast.AST) -> tuple[str, ...] | None:
     return None
 
 
+def _derived(a: ast.AST) -> tuple[str, ast.Name, int] | None:
+    """a part of a name that decides a prefix property:  x.split("/")[0] / x.split("/", n)[0] / x.partition("/")[0]
+    (the first segment) -> ("seg0", x, 0);  x[:n] / x[0:n] -> ("head", x, n)."""
+    if not isinstance(a, ast.Subscript):
+        return None
+    if isinstance(a.slice, ast.Slice):
+        lo, hi = a.slice.lower, a.slice.upper
+        if isinstance(a.value, ast.Name) and a.slice.step is None and (lo is None or (isinstance(lo, ast.Constant) and lo.value == 0)) and isinstance(hi, ast.Constant) and isinstance(hi.value, int) and hi.value > 0:
+            return "head", a.value, hi.value
+        return None
+    if isinstance(a.slice, ast.Constant) and a.slice.value == 0 and isinstance(a.value, ast.Call) and isinstance(a.value.func, ast.Attribute) and isinstance(a.value.func.value, ast.Name) and not a.value.keywords:
+        c = a.value
+        m = c.func.attr  # type: ignore[attr-defined]
+        if m in ("split", "partition") and c.args and isinstance(c.args[0], ast.Constant) and c.args[0].value == "/" and (len(c.args) == 1 or (m == "split" and len(c.args) == 2)):
+            return "seg0", c.func.value, 0  # type: ignore[attr-defined]
+    return None
+
+
 def parse_atom(unit: Unit, e: ast.AST) -> tuple[str, tuple[str, ...], str, ast.Name] | None:
     """(kind, consts, label of the edge on which the predicate holds, tested Name) or None when the shape is unknown."""
     if isinstance(e, ast.Compare) and len(e.ops) == 1:
         a, op, b = e.left, e.ops[0], e.comparators[0]
+        if isinstance(op, (ast.Eq, ast.NotEq)) and isinstance(a, ast.Constant) and not isinstance(b, ast.Constant):
+            a, b = b, a
+        d = _derived(a)
+        if d is not None and isinstance(op, (ast.Eq, ast.NotEq, ast.In, ast.NotIn)):
+            cs = _str_consts(b) if not (isinstance(op, (ast.In, ast.NotIn)) and isinstance(b, ast.Constant)) else None
+            if cs:
+                holds = "T" if isinstance(op, (ast.Eq, ast.In)) else "F"
+                if d[0] == "seg0":
+                    return "seg0", cs, holds, d[1]
+                n = d[2]
+                cs = tuple(c for c in cs if len(c) <= n)  # x[:n] is never longer than n
+                if all(len(c) == n for c in cs):
+                    return ("prefix" if cs else "in"), cs, holds, d[1]
+                if all(len(c) < n for c in cs):
+                    return "in", cs, holds, d[1]
+            return None
         if isinstance(op, (ast.Eq, ast.NotEq)):
-            if isinstance(b, ast.Name) and _str_consts(a) and isinstance(a, ast.Constant):
-                a, b = b, a
             if isinstance(a, ast.Name) and isinstance(b, ast.Constant) and isinstance(b.value, str):
                 return "eq", (b.value,), "T" if isinstance(op, ast.Eq) else "F", a
         if isinstance(op, (ast.In, ast.NotIn)) and isinstance(a, ast.Name) and not isinstance(b, ast.Constant):
@@ -344,12 +386,358 @@ def helper_atoms(hu: Unit, param: str) -> tuple[list[tuple[bool, str, tuple[str,
 
 
 # ---------------------------------------------------------------------
+# conditions: what a truth value of an expression says about a variable
+
+
+def implied(u: Unit, e: ast.AST, truth: bool, name: str, node: Node | None, depth: int = 0) -> str | None:
+    """what `bool(e) == truth` says about the local variable `name` (read in CFG node `node`):
+    'nonnull' (it is not None), 'empty' (it is None or another falsy value - it carries no path) or None (nothing).
+    Decided on the meaning of the condition, not its spelling: `x is None` / `x is not None` / `x == None` / `x` /
+    `not x` / `isinstance(x, str)`, the walrus forms `(x := ...) is None`, De Morgan over and / or / not, and a flag
+    variable `f = <condition>` ... `if f` whose single definition was computed from the same value of x."""
+    if depth > 6:
+        return None
+    if isinstance(e, ast.UnaryOp) and isinstance(e.op, ast.Not):
+        return implied(u, e.operand, not truth, name, node, depth)
+    if isinstance(e, ast.BoolOp):
+        every = isinstance(e.op, ast.And) if truth else isinstance(e.op, ast.Or)  # every operand has this truth value
+        rs = [implied(u, v, truth, name, node, depth) for v in e.values]
+        if every:
+            return next((r for r in rs if r is not None), None)
+        return rs[0] if rs and all(r == rs[0] for r in rs) else None
+    if isinstance(e, ast.NamedExpr):
+        if e.target.id == name:
+            return "nonnull" if truth else "empty"
+        return implied(u, e.value, truth, name, node, depth)
+    if isinstance(e, ast.Name):
+        if e.id == name:
+            return "nonnull" if truth else "empty"
+        if node is None:
+            return None
+        defs = u.rd.reaching(node, e.id)
+        d = next(iter(defs)) if len(defs) == 1 else None
+        if d is None or d.kind not in ("assign", "walrus") or d.index is not None or d.value is None or d.node is None:
+            return None
+        binds = any(x.name == name for x in u.rd.gen[d.node.id])
+        if (u.rd.after(d.node, name) if binds else u.rd.reaching(d.node, name)) != u.rd.reaching(node, name):
+            return None  # the flag was computed from another value of the variable
+        return implied(u, d.value, truth, name, d.node, depth + 1)
+    if isinstance(e, ast.Compare) and len(e.ops) == 1:
+        a, op, b = e.left, e.ops[0], e.comparators[0]
+        if astq.is_none(a):
+            a, b = b, a
+        if astq.is_none(b) and (astq.is_name(a, name) or (isinstance(a, ast.NamedExpr) and a.target.id == name)):
+            if isinstance(op, (ast.Is, ast.Eq)):
+                return "empty" if truth else "nonnull"
+            if isinstance(op, (ast.IsNot, ast.NotEq)):
+                return "nonnull" if truth else "empty"
+        return None
+    if isinstance(e, ast.Call) and isinstance(e.func, ast.Name) and e.func.id == "isinstance" and len(e.args) == 2 and astq.is_name(e.args[0], name):
+        cls = e.args[1]
+        names = [dotted(x) for x in (cls.elts if isinstance(cls, ast.Tuple) else [cls])]
+        if truth and names and all(n in ("str", "bytes", "os.PathLike") for n in names):
+            return "nonnull"
+    return None
+
+
+def cond_says(u: Unit, conds: t.Sequence[tuple[ast.AST, bool]], name: str, node: Node | None) -> str | None:
+    for test, truth in conds:
+        r = implied(u, test, truth, name, node)
+        if r is not None:
+            return r
+    return None
+
+
+def ancestor_conds(u: Unit, n: ast.AST) -> tuple[tuple[ast.AST, bool], ...]:
+    """conditions known to hold when the sub-expression `n` is evaluated, from the enclosing conditional
+    expressions, and / or chains and comprehension filters of the same statement."""
+    out: list[tuple[ast.AST, bool]] = []
+    cur: ast.AST = n
+    while True:
+        p = astq.parent(cur)
+        if p is None or isinstance(p, ast.stmt) or cur is u.node:
+            break
+        if isinstance(p, ast.IfExp):
+            if cur is p.body:
+                out.append((p.test, True))
+            elif cur is p.orelse:
+                out.append((p.test, False))
+        elif isinstance(p, ast.BoolOp):
+            i = next((k for k, v in enumerate(p.values) if v is cur), 0)
+            out += [(v, isinstance(p.op, ast.And)) for v in p.values[:i]]
+        elif isinstance(p, (ast.ListComp, ast.SetComp, ast.GeneratorExp, ast.DictComp)) and not isinstance(cur, ast.comprehension):
+            for g in p.generators:
+                out += [(c, True) for c in g.ifs]
+        cur = p
+    return tuple(out)
+
+
+def identity_arg(u: Unit, e: ast.Call) -> ast.AST | None:
+    """the argument of a call that returns its argument unchanged (os.fspath on a str, typing.cast)."""
+    if e.keywords or any(isinstance(a, ast.Starred) for a in e.args):
+        return None
+    fq = u.resolve(e.func)
+    if fq in IDENTITY and len(e.args) == 1:
+        return e.args[0]
+    if fq == "typing.cast" and len(e.args) == 2:
+        return e.args[1]
+    return None
+
+
+def position(u: Unit, n: ast.AST, passes: t.Callable[[ast.Call, ast.AST], bool] = lambda c, a: False) -> str:
+    """role of the value of sub-expression `n` in its statement:
+    'test'    only its None-ness / truthiness is examined;
+    'bind'    it becomes (one selected arm of) the value bound to a local name;
+    'return'  it is (one selected arm of) the returned value;
+    'pass'    it is handed to a followed helper (which is then responsible for it);
+    'discard' expression statement; 'use' anything else."""
+    cur: ast.AST = n
+    while True:
+        p = astq.parent(cur)
+        if p is None:
+            return "use"
+        if isinstance(p, ast.IfExp):
+            if cur is p.test:
+                return "test"
+            cur = p
+            continue
+        if isinstance(p, (ast.BoolOp, ast.NamedExpr)):
+            cur = p
+            continue
+        if isinstance(p, ast.UnaryOp) and isinstance(p.op, ast.Not):
+            return "test"
+        if isinstance(p, ast.Compare) and len(p.ops) == 1 and isinstance(p.ops[0], (ast.Is, ast.IsNot, ast.Eq, ast.NotEq)) and (astq.is_none(p.left) or astq.is_none(p.comparators[0])):
+            return "test"
+        if isinstance(p, ast.Call):
+            if identity_arg(u, p) is cur:
+                cur = p
+                continue
+            if isinstance(p.func, ast.Name) and p.func.id == "isinstance" and p.args and p.args[0] is cur:
+                return "test"
+            if passes(p, cur):
+                return "pass"
+            return "use"
+        if isinstance(p, ast.keyword):
+            pp = astq.parent(p)
+            return "pass" if isinstance(pp, ast.Call) and passes(pp, cur) else "use"
+        if isinstance(p, (ast.If, ast.While, ast.Assert)) and cur is p.test:
+            return "test"
+        if isinstance(p, ast.comprehension) and cur in p.ifs:
+            return "test"
+        if isinstance(p, ast.Assign) and cur is p.value and all(isinstance(tg, ast.Name) for tg in p.targets):
+            return "bind"
+        if isinstance(p, ast.AnnAssign) and cur is p.value and isinstance(p.target, ast.Name):
+            return "bind"
+        if isinstance(p, (ast.Tuple, ast.List)):
+            pp = astq.parent(p)
+            if isinstance(pp, ast.Assign) and pp.value is p and len(pp.targets) == 1 and isinstance(pp.targets[0], (ast.Tuple, ast.List)) and len(pp.targets[0].elts) == len(p.elts) and all(isinstance(x, ast.Name) for x in pp.targets[0].elts):
+                return "bind"
+            return "use"
+        if isinstance(p, ast.Return):
+            return "return"
+        if isinstance(p, ast.Expr):
+            return "discard"
+        return "use"
+
+
+# ---------------------------------------------------------------------
+# nullness: where can the None of a refusing call (safe_join, or a helper that passes the refusal on) arrive?
+
+
+class Nulls:
+    """origin sets of possibly-None values.  A *source* is a call whose result may be None as a refusal (decided by
+    `is_source`), a parameter that a caller may bind to such a result, or a `None` constant.  `origins(e, node)` is the
+    set of sources whose None may be the value of expression `e` evaluated in CFG node `node`: the union over the
+    arms of conditional expressions and and / or chains (each arm under the conditions that select it) and over
+    the reaching definitions of names - a definition contributes only if some path from it to `node` keeps the
+    variable and avoids every edge on which a test has established that it is not None."""
+
+    def __init__(self, unit: Unit, is_source: t.Callable[[ast.Call], bool], null_params: t.Iterable[str] = (), elements: bool = False):
+        self.u = unit
+        self.is_source = is_source
+        self.elements = elements  # also follow a source through tuple unpacking / subscription of its result
+        a = unit.node.args  # type: ignore[attr-defined]
+        args = {x.arg: x for x in a.posonlyargs + a.args + a.kwonlyargs}
+        self.param_src = {p: args[p] for p in null_params if p in args}
+        self._memo: dict[tuple[int, bool], frozenset[ast.AST]] = {}
+        self._edges: dict[str, list[tuple[Node, str]]] = {}
+
+    # -- expressions -------------------------------------------------------
+    def origins(self, e: ast.AST | None, node: Node | None, conds: t.Sequence[tuple[ast.AST, bool]] = (), guarded: bool = True, depth: int = 0) -> frozenset[ast.AST]:
+        none: frozenset[ast.AST] = frozenset()
+        if e is None or depth > 12:
+            return none
+        conds = tuple(conds)
+        if isinstance(e, ast.Constant):
+            return frozenset([e]) if e.value is None else none
+        if isinstance(e, ast.Call):
+            if self.is_source(e):
+                return frozenset([e])
+            a = identity_arg(self.u, e)
+            return self.origins(a, node, conds, guarded, depth + 1) if a is not None else none
+        if isinstance(e, ast.NamedExpr):
+            return self.origins(e.value, node, conds, guarded, depth + 1)
+        if self.elements and isinstance(e, ast.Subscript):
+            return self.origins(e.value, node, conds, guarded, depth + 1)
+        if isinstance(e, ast.IfExp):
+            return self.origins(e.body, node, conds + ((e.test, True),), guarded, depth + 1) | self.origins(e.orelse, node, conds + ((e.test, False),), guarded, depth + 1)
+        if isinstance(e, ast.BoolOp):
+            out: frozenset[ast.AST] = none
+            is_and = isinstance(e.op, ast.And)
+            for i, v in enumerate(e.values):
+                # `a or b`: a is the result only when truthy (never None); `a and b`: a is the result when falsy
+                if is_and or i == len(e.values) - 1:
+                    out |= self.origins(v, node, conds, guarded, depth + 1)
+                conds = conds + ((v, is_and),)
+            return out
+        if isinstance(e, ast.Name):
+            if node is None or self.u.lambda_param(e) or bound_in_enclosing_comp(e, self.u.node) is not None:
+                return none
+            if guarded and cond_says(self.u, conds, e.id, node) == "nonnull":
+                return none
+            out = none
+            for d in self.u.rd.reaching(node, e.id):
+                o = self.def_origins(d, guarded)
+                if o and (not guarded or self.unguarded(d, node)):
+                    out |= o
+            return out
+        return none
+
+    def def_origins(self, d: Def, guarded: bool = True) -> frozenset[ast.AST]:
+        key = (id(d), guarded)
+        if key in self._memo:
+            return self._memo[key]
+        self._memo[key] = frozenset()  # loop-carried definitions: cut the cycle
+        out: frozenset[ast.AST] = frozenset()
+        if d.kind == "param":
+            out = frozenset([self.param_src[d.name]]) if d.name in self.param_src else out
+        elif d.kind in ("assign", "walrus") and d.value is not None and d.node is not None and d.index is None:
+            out = self.origins(d.value, d.node, (), guarded, 1)
+        elif d.kind == "unpack" and isinstance(d.value, (ast.Tuple, ast.List)) and d.index is not None and d.index < len(d.value.elts) and not any(isinstance(x, ast.Starred) for x in d.value.elts) and d.node is not None:
+            out = self.origins(d.value.elts[d.index], d.node, (), guarded, 1)
+        elif self.elements and d.kind == "unpack" and d.value is not None and d.node is not None:
+            out = self.origins(d.value, d.node, (), guarded, 1)
+        self._memo[key] = out
+        return out
+
+    # -- paths ---------------------------------------------------------------
+    def nonnull_edges(self, name: str) -> list[tuple[Node, str]]:
+        """(test node, label) edges on which the variable is known not to be None."""
+        if name not in self._edges:
+            out = []
+            for tn in self.u.cfg.nodes:
+                if tn.kind != "test":
+                    continue
+                for lab in ("T", "F"):
+                    if implied(self.u, tn.ast, lab == "T", name, tn) == "nonnull":
+                        out.append((tn, lab))
+            self._edges[name] = out
+        return self._edges[name]
+
+    def guard_edges(self, d: Def) -> list[tuple[Node, str]]:
+        """the not-None edges that speak about definition d: tests of its variable, and - when d is a plain copy
+        `x = y` - tests of y made while y still holds the copied value."""
+        out = list(self.nonnull_edges(d.name))
+        v = self._copied(d)
+        if v is not None and d.node is not None:
+            at_copy = self.u.rd.reaching(d.node, v.id)
+            out += [(tn, lab) for tn, lab in self.nonnull_edges(v.id) if self.u.rd.reaching(tn, v.id) == at_copy]
+        return out
+
+    def _copied(self, d: Def) -> ast.Name | None:
+        """the name whose value definition d copies (or, following elements, unpacks)."""
+        v = d.value
+        while isinstance(v, ast.NamedExpr):
+            v = v.value
+        if not isinstance(v, ast.Name) or v.id == d.name:
+            return None
+        if d.kind in ("assign", "walrus") and d.index is None:
+            return v
+        return v if self.elements and d.kind == "unpack" else None
+
+    def tests_of(self, d: Def) -> list[tuple[Node, str, str]]:
+        """the not-None edges of tests that examine the value of definition d: (test node, label, tested variable)."""
+        rd = self.u.rd
+        own = self.nonnull_edges(d.name)
+        out = [(tn, lab, d.name) for tn, lab in own if d in rd.reaching(tn, d.name) or tn is d.node]
+        v = self._copied(d)
+        return out + [(tn, lab, v.id) for tn, lab in self.guard_edges(d) if (tn, lab) not in own and v is not None]
+
+    def none_paths_end_in(self, test: Node, label: str, name: str, goals: list[Node]) -> bool:
+        """does every path that leaves `test` on `label` - the edge on which variable `name` is None - end in one of
+        `goals`?  While the variable is not rebound it stays None, so later not-None edges of its tests are dead."""
+        cfg = self.u.cfg
+        if not goals:
+            return False
+        goal_ids = {g.id for g in goals}
+        blocked = {(tn.id, lab) for tn, lab in self.nonnull_edges(name)}
+        killers = {n.id for n in cfg.nodes if any(x.name == name for x in self.u.rd.gen[n.id])}
+        stack = [(s, True) for s in cfg.succ(test, label)]
+        seen: set[tuple[int, bool]] = set()
+        while stack:
+            n, is_none = stack.pop()
+            if n.id in goal_ids or (n.id, is_none) in seen:
+                continue
+            seen.add((n.id, is_none))
+            if n is cfg.exit or n is cfg.raise_exit:
+                return False
+            if n.id in killers:
+                is_none = False
+            for s, lab in n.succs:
+                if is_none and (n.id, lab) in blocked:
+                    continue
+                stack.append((s, is_none))
+        return True
+
+    def unguarded(self, d: Def, node: Node) -> bool:
+        """is there a path from definition d to `node` on which the variable keeps d's value and no not-None edge
+        of a test about it is taken?"""
+        cfg = self.u.cfg
+        blocked = {(tn.id, lab) for tn, lab in self.guard_edges(d)}
+        killers = {n.id for n in cfg.nodes if any(x.name == d.name for x in self.u.rd.gen[n.id])}
+        start = d.node if d.node is not None else cfg.entry
+        stack = [s for s, lab in start.succs if (start.id, lab) not in blocked and not (d.node is not None and lab == "exc")]
+        seen: set[int] = set()
+        while stack:
+            n = stack.pop()
+            if n is node:
+                return True
+            if n.id in seen:
+                continue
+            seen.add(n.id)
+            if n.id in killers:
+                continue
+            for s, lab in n.succs:
+                if (n.id, lab) not in blocked:
+                    stack.append(s)
+        return False
+
+    def witness(self, d: Def, node: Node) -> list[Node] | None:
+        start = d.node if d.node is not None else self.u.cfg.entry
+        return self.u.cfg.path(start, node, avoid_edges=self.guard_edges(d))
+
+
+# ---------------------------------------------------------------------
 # provenance of sink arguments
 
 
 JOIN = {"posixpath.join", "os.path.join"}
 IDENTITY = {"os.fspath"}
 T_, J_, X_ = "trusted", "safejoined", "unsafe"
+_ORDER = {T_: 0, J_: 1, X_: 2}
+
+
+def join_kind(a: str, b: str) -> str:
+    return a if _ORDER[a] >= _ORDER[b] else b
+
+
+class Summary(t.NamedTuple):
+    """what a followed helper returns, under the parameter kinds its call sites give it."""
+
+    kind: str = T_
+    why: str = ""
+    elems: tuple[tuple[str, str], ...] | None = None  # per element when every return is a tuple of one length
+    nullable: bool = False  # may return None as a refusal (a safe_join None passed on, or `return None`)
 
 
 class Prov:
@@ -361,36 +749,68 @@ class Prov:
                  expandvars, a method call, concatenation, formatting, slicing) happens AFTER the containment check
                  and may re-open the escape, so the value loses the provenance;
     unsafe     = everything else, in particular the request-derived names of the unit.
+    The value of a conditional expression / and-or chain is the set of its arms, each judged under the conditions
+    that select it: the condition itself does not flow into the value, an arm that is a name known to be None (or
+    falsy) under its condition carries no path, a non-final `and` operand is the result only when it is falsy.
+    A call of a followed helper (same module / same class) has the provenance of what the helper returns under the
+    kinds of the arguments its call sites pass (`follow`).
     A filesystem call that received a safe argument returns a handle of a contained file (trusted)."""
 
-    def __init__(self, unit: Unit, is_safe_join: t.Callable[[ast.Call], bool], is_sink: t.Callable[[ast.Call], bool] | None = None):
+    def __init__(self, unit: Unit, is_safe_join: t.Callable[[Unit, ast.Call], bool], is_sink: t.Callable[[Unit, ast.Call], bool] | None = None, follow: t.Callable[[Unit, ast.Call], Summary | None] | None = None):
         self.u = unit
-        self.is_safe_join = is_safe_join
-        self.is_sink = is_sink or (lambda c: False)
+        self._cb = (is_safe_join, is_sink, follow)
+        self.is_safe_join = lambda c: is_safe_join(unit, c)
+        self.is_sink = (lambda c: is_sink(unit, c)) if is_sink else (lambda c: False)
+        self.follow = (lambda c: follow(unit, c)) if follow else (lambda c: None)
 
     def safe(self, e: ast.AST | None, node: Node | None, depth: int = 0) -> tuple[bool, str]:
-        k, why = self.kind(e, node, depth)
+        k, why = self.kind(e, node, depth, ancestor_conds(self.u, e) if e is not None else ())
         return k != X_, why
 
-    def kind(self, e: ast.AST | None, node: Node | None, depth: int = 0, value: bool = True) -> tuple[str, str]:
-        """value=False: the expression is only evaluated (a condition), its value does not flow on."""
+    def _arms(self, arms: list[tuple[ast.AST, tuple]], node: Node | None, depth: int) -> tuple[str, str]:
+        res = T_
+        for a, conds in arms:
+            k, why = self.kind(a, node, depth, conds)
+            if k == X_:
+                return k, why
+            res = join_kind(res, k)
+        return res, ""
+
+    def kind(self, e: ast.AST | None, node: Node | None, depth: int = 0, conds: t.Sequence[tuple[ast.AST, bool]] = ()) -> tuple[str, str]:
         if e is None:
             return T_, ""
         if depth > 8:
             return X_, "definition chain too deep"
+        conds = tuple(conds)
         if isinstance(e, ast.Constant):
             return T_, ""
         if isinstance(e, ast.Call) and self.is_safe_join(e):
             if not e.args or isinstance(e.args[0], ast.Starred):
                 return X_, f"`{norm(e)}` has no positional base directory"
-            k, why = self.kind(e.args[0], node, depth + 1)
+            k, why = self.kind(e.args[0], node, depth + 1, conds)
             return (X_, f"base directory of `{norm(e)}`: {why}") if k == X_ else (J_, "")
         if isinstance(e, ast.Name):
+            if cond_says(self.u, conds, e.id, node) == "empty":
+                return T_, ""  # None (or falsy) under the condition that selects this arm
             return self._name(e, node, depth)
         if isinstance(e, ast.Lambda):
-            return self.kind(e.body, node, depth + 1, value)
+            return self.kind(e.body, node, depth + 1, conds)
         if isinstance(e, ast.NamedExpr):
-            return self.kind(e.value, node, depth, value)
+            return self.kind(e.value, node, depth, conds)
+        if isinstance(e, ast.IfExp):
+            return self._arms([(e.body, conds + ((e.test, True),)), (e.orelse, conds + ((e.test, False),))], node, depth)
+        if isinstance(e, ast.BoolOp):
+            is_and = isinstance(e.op, ast.And)
+            arms = []
+            for i, v in enumerate(e.values):
+                if not is_and or i == len(e.values) - 1:
+                    arms.append((v, conds))
+                conds = conds + ((v, is_and),)
+            return self._arms(arms, node, depth)
+        if isinstance(e, ast.Call):
+            s = self.follow(e)
+            if s is not None:
+                return (s.kind, f"`{norm(e)[:60]}` returns {s.why}" if s.kind == X_ else "")
         kinds: list[str] = []
         for ch in ast.iter_child_nodes(e):
             if isinstance(ch, (ast.expr_context, ast.operator, ast.cmpop, ast.boolop, ast.unaryop)):
@@ -398,16 +818,16 @@ class Prov:
             if isinstance(ch, (ast.comprehension, ast.keyword)):
                 for sub in ast.iter_child_nodes(ch):
                     if isinstance(sub, ast.expr) and not (isinstance(sub, ast.Name) and isinstance(sub.ctx, ast.Store)):
-                        k, why = self.kind(sub, node, depth, value)
+                        k, why = self.kind(sub, node, depth, conds)
                         if k == X_:
                             return k, why
                         kinds.append(k)
                 continue
-            k, why = self.kind(ch, node, depth, value and not (isinstance(e, ast.IfExp) and ch is e.test))
+            k, why = self.kind(ch, node, depth, conds)
             if k == X_:
                 return k, why
             kinds.append(k)
-        if not value or J_ not in kinds:
+        if J_ not in kinds:
             return T_, ""
         if isinstance(e, ast.Call) and self.is_sink(e):
             return T_, ""  # handle of a file opened through a checked path
@@ -416,11 +836,11 @@ class Prov:
         return X_, f"a safe_join result passes through `{norm(e)[:70]}` after the containment check (only a copy, a selection or os.path.join with trusted operands keeps the guarantee)"
 
     def _keeps(self, e: ast.AST) -> bool:
-        if isinstance(e, (ast.IfExp, ast.BoolOp, ast.Starred)):
+        if isinstance(e, ast.Starred):
             return True
         if isinstance(e, ast.Call) and not e.keywords:
             fq = self.u.resolve(e.func)
-            return fq in JOIN or (fq in IDENTITY and len(e.args) == 1)
+            return fq in JOIN or identity_arg(self.u, e) is not None
         return False
 
     def _name(self, e: ast.Name, node: Node | None, depth: int) -> tuple[str, str]:
@@ -434,21 +854,40 @@ class Prov:
         if not defs:
             if e.id in u.untrusted:
                 return X_, f"`{e.id}` is request-derived"
-            return T_, ""  # closure variable of the enclosing factory / module name
+            if u._is_local(e.id):
+                return T_, ""  # not bound yet on any path to this node
+            return self._free(e.id, depth)
         res = T_
         for d in sorted(defs, key=lambda d: getattr(d.stmt, "lineno", 0)):
             k, why = self._def(d, depth)
             if k == X_:
                 return k, why
-            if k == J_:
-                res = J_
+            res = join_kind(res, k)
         return res, ""
+
+    def _free(self, name: str, depth: int) -> tuple[str, str]:
+        """a free variable: a local of an enclosing unit (any of its bindings may be current when the callable runs)
+        or a module-level name (trusted)."""
+        enc = self.u.enclosing
+        while enc is not None:
+            if enc._is_local(name):
+                outer = Prov(enc, *self._cb)
+                res = T_
+                for d in [x for ds in enc.rd.gen.values() for x in ds if x.name == name] + [x for x in enc.rd.param_defs if x.name == name]:
+                    k, why = outer._def(d, depth + 1)
+                    if k == X_:
+                        return X_, f"closure variable `{name}` of {enc.label}: {why}"
+                    res = join_kind(res, k)
+                return res, ""
+            enc = enc.enclosing
+        return T_, ""
 
     def _def(self, d: Def, depth: int) -> tuple[str, str]:
         if d.kind == "param":
-            if d.name in self.u.untrusted:
+            k = self.u.param_kind.get(d.name, T_)
+            if k == X_:
                 return X_, f"`{d.name}` is the request-derived parameter"
-            return T_, ""
+            return k, ""
         if d.kind in ("import", "def", "except", "del"):
             return T_, ""
         if d.value is None:
@@ -456,7 +895,12 @@ class Prov:
         v = d.value
         if d.kind == "unpack" and isinstance(v, (ast.Tuple, ast.List)) and d.index is not None and d.index < len(v.elts) and not any(isinstance(x, ast.Starred) for x in v.elts):
             v = v.elts[d.index]
-        k, why = self.kind(v, d.node, depth + 1)
+        s = self.follow(v) if d.kind == "unpack" and isinstance(v, ast.Call) and d.index is not None else None
+        if s is not None and s.elems is not None and d.index is not None and d.index < len(s.elems) and not isinstance(d.target, ast.Starred):
+            k, why = s.elems[d.index]
+            why = f"element {d.index} of what `{norm(v)[:50]}` returns: {why}" if k == X_ else ""
+        else:
+            k, why = self.kind(v, d.node, depth + 1)
         if k != X_ and d.kind == "aug" and d.node is not None:
             for p in self.u.rd.reaching(d.node, d.name):
                 if p is d:
